@@ -336,6 +336,9 @@ fn swap64<V: Swap64 + 'static>() -> Vec<U1<V>> {
 /// impl's where-clauses, not by the u128x1 trait)
 pub trait MachExt: Machine {
     fn bswap128(v: Self::u128x1) -> Self::u128x1;
+    /// arithmetic a backend offers on its 128-bit-word types although the traits do not ask for it
+    /// (only the portable backend does; harness feature `simd_extras`)
+    fn extra_c12(_cx: &mut Cx, _m: Self) {}
 }
 
 // ---------------------------------------------------------------------------------------------
@@ -532,6 +535,7 @@ where
         t!(i_u32x4x4, M::u32x4x4, 32, [bit, r32, arith, lw4]);
         t!(i_u64x2x4, M::u64x2x4, 64, [bit, r32, r64, arith]);
         t!(i_u128x4, M::u128x4, 128, [bit, r32, r64, sw]);
+        M::extra_c12(cx, m);
     }
     if cx.c13 {
         // storage round trips
@@ -917,6 +921,16 @@ mod machines {
         fn bswap128(v: Self::u128x1) -> Self::u128x1 {
             v.bswap()
         }
+        #[cfg(feature = "simd_extras")]
+        fn extra_c12(cx: &mut Cx, m: Self) {
+            type M = GenericMachine;
+            let (_, bi) = arith::<<M as Machine>::u128x1>(128);
+            check_binary(cx, &io128::<M, <M as Machine>::u128x1>(m, 128, "u128x1"), &bi, "c12");
+            let (_, bi) = arith::<<M as Machine>::u128x2>(128);
+            check_binary(cx, &io256::<M, <M as Machine>::u128x2>(m, 128, "u128x2"), &bi, "c12");
+            let (_, bi) = arith::<<M as Machine>::u128x4>(128);
+            check_binary(cx, &io512::<M, <M as Machine>::u128x4>(m, 128, "u128x4"), &bi, "c12");
+        }
     }
     pub fn all(cx: &mut Cx) {
         cx.backend = "generic";
@@ -935,7 +949,7 @@ pub fn run(check: &str, tier: &str, config: &str) -> Report {
     rep.set("triples", json!(triples.len()));
     rep.set("triple_list", json!(triples));
     if check == "C12" {
-        rep.rule = "for every backend instantiated directly (SSE2, SSSE3, SSE4.1 = AVX types, AVX2; generic in the no_simd build) x the 10 Machine vector types x every operation the trait bounds require (not, and, or, xor, xor-assign, andnot, 8 rotate_each_word_right*, right32, add, add-assign, bswap, shuffle{1230,2301,3012}, shuffle_lane_words*, swap{1..64}; u128x1 bswap through the concrete type): unary ops on every alphabet value {0,1,2,2^w-1,2^w-2,2^(w-1),2^(w-1)-1,0x55..,0xaa..,2 patterns, every one-hot, every one-cold} in every word position with pairwise distinct fillers elsewhere; binary ops on A x A per word position (quick: band around the diagonal + first 11 rows/columns); every ordered pair of unary ops on a seed subset (depth-2 closure); oracle = scalar u32/u64/u128 arithmetic on little-endian word lists".into();
+        rep.rule = "for every backend instantiated directly (SSE2, SSSE3, SSE4.1 = AVX types, AVX2; generic in the no_simd build) x the 10 Machine vector types x every operation the trait bounds require (not, and, or, xor, xor-assign, andnot, 8 rotate_each_word_right*, right32, add, add-assign, bswap, shuffle{1230,2301,3012}, shuffle_lane_words*, swap{1..64}; u128x1 bswap through the concrete type; on the portable backend also add / add-assign of u128x1, u128x2, u128x4, which it offers beyond the trait vocabulary): unary ops on every alphabet value {0,1,2,2^w-1,2^w-2,2^(w-1),2^(w-1)-1,0x55..,0xaa..,2 patterns, every one-hot, every one-cold} in every word position with pairwise distinct fillers elsewhere; binary ops on A x A per word position (quick: band around the diagonal + first 11 rows/columns); every ordered pair of unary ops on a seed subset (depth-2 closure); oracle = scalar u32/u64/u128 arithmetic on little-endian word lists".into();
     } else {
         rep.rule = "for every backend x vector type: unpack(into) round trip, to_lanes/from_lanes/vec, extract/insert at every index, read_le/write_le/read_be/write_be, transpose4, to_scalars, and the array views of vec128/256/512_storage, on {fillers, 0, all-ones, byte-counting pattern, every one-hot bit}; Default and == of the storage types (equal iff no bit differs, every one-hot difference); on the x86 machines also what the vector types offer beyond the trait vocabulary (harness feature simd_extras): u128x1/u128x2/u128x4 reinterpreted Into the 32- and 64-bit-word types, == and Default of u32x4 / u64x2, UnsafeFrom word arrays; oracle = array semantics with little-endian word packing".into();
         rep.set("simd_extras", json!(cfg!(feature = "simd_extras")));
